@@ -735,12 +735,17 @@ func genericSeq(i int) []M {
 
 const nGenericSeq = 91
 
+var delTexts = []string{"2020-02-02T02:02:02Z", "2020-02-02T02:02:02Z", "0001-01-01T00:00:00Z", "2020-02-02T02:02:02.123456Z", "null", "2024-05-01 10:00:00", "2024-05-01T10:00:00+0000", "x"}
+var delTextN int
+
 func applyGeneric(m M, g gctx) {
 	switch g.del {
 	case 1:
 		setp(m, "", "metadata", "deletionTimestamp")
 	case 2:
-		setp(m, "2020-02-02T02:02:02Z", "metadata", "deletionTimestamp")
+		// any non-empty text marks the object as being deleted, whether or not it parses as a time
+		delTextN++
+		setp(m, delTexts[delTextN%len(delTexts)], "metadata", "deletionTimestamp")
 	}
 	setGen := func(gen, obs int64) {
 		md, _ := m["metadata"].(M)
